@@ -565,7 +565,9 @@ class C03(Prop):
         "the whole assembled system is checked by directional finite differences at random and "
         "at structured states (contact cells of both signs of normal jump/traction, exact zeros "
         "in one tangential component in 3-D, stick and slip), with an explicit margin to every "
-        "kink and a measured branch coverage of every max/abs/l2_norm/characteristic node.")
+        "kink and a measured branch coverage of every max/abs/l2_norm/characteristic node; one 3-D "
+        "contact state with slips of ~1e-9 is checked against the exact (50-digit) directional "
+        "derivative of the translated trees of the equations containing l2_norm.")
     level_note = (
         "Strength P-method: the theorem is about trees in the C01 language; that a real model "
         "equation IS such a tree is checked per run structurally (census) and numerically (the "
@@ -688,7 +690,9 @@ class C03(Prop):
                       for name, idx in es.assembled_equation_indices.items()]
             Jabs = abs(J)
             dirs = []
-            for _ in range(3):
+            # at a tiny-slip state the difference-quotient steps (>= 1e-7) are far larger than
+            # the slip itself (high curvature of |u_t|): only the exact check applies there
+            for _ in range(0 if case.get("state") == "tinyslip" else 3):
                 v = rs.standard_normal(x.size)
                 jv = J @ v
                 scale = Jabs @ np.abs(v)
